@@ -607,6 +607,9 @@ func (e *Env) call(n *ECall) TVal {
 		if v.ty.sort == "Slice" {
 			r = app("s-arr", r)
 		}
+		if v.ty.sort == "Iface" {
+			r = app("i-val", r)
+		}
 		return TVal{term: app(">=", app("rid", r), e.loop.pre.next), ty: boolTy()}
 	case "atloopheap": // the expression over the heap as it was when the loop was entered, with the locals' current values
 		if e.loop == nil || e.loop.pre == nil {
